@@ -33,7 +33,13 @@
 #include "version_set.h"
 static int wl_versions_apply(ldb_versions_t *vset, ldb_edit_t *edit, ldb_mutex_t *mu);
 #define ldb_versions_apply wl_versions_apply
+/* the only call site of ldb_compaction_add_input_deletions is ldb_install_compaction_results(db, state): record the
+   smallest snapshot the drop loop of this compaction worked with (transcript line `csnap`, see Model/Compaction.lean) */
+static void wl_note_smallest(uint64_t s);
+#define ldb_compaction_add_input_deletions(c, e) \
+  (wl_note_smallest((uint64_t)state->smallest_snapshot), (ldb_compaction_add_input_deletions)((c), (e)))
 #include "db_impl.c"
+#undef ldb_compaction_add_input_deletions
 #undef ldb_versions_apply
 
 #include "table/table.h"
@@ -143,12 +149,17 @@ static void print_ikey_parts(FILE *out, const ldb_buffer_t *ik) {
   fprintf(out, ":%llu", (unsigned long long)ldb_fixed64_decode(ik->data + ik->size - 8));
 }
 
+/* set by the background thread right before it builds the edit of a finished compaction; consumed by the apply wrapper */
+static __thread int g_csnap_valid = 0; static __thread uint64_t g_csnap = 0;
+static void wl_note_smallest(uint64_t s) { g_csnap = s; g_csnap_valid = 1; }
+
 /* wrapper around every ldb_versions_apply call made from db_impl.c (foreground open/recovery and background thread) */
 static long long g_first_apply_lognum = -1;
 static int wl_versions_apply(ldb_versions_t *vset, ldb_edit_t *edit, ldb_mutex_t *mu) {
   int rc; size_t i; rb_iter_t it; int first;
   /* edits of other databases opened by the harness itself (crash images, backups) are not part of the transcript */
   if (strcmp(vset->dbname, g_dir) != 0) {
+    g_csnap_valid = 0;
     pthread_mutex_lock(&g_bglock);
     if (g_first_apply_lognum < 0) g_first_apply_lognum = (long long)vset->log_number;
     pthread_mutex_unlock(&g_bglock);
@@ -168,6 +179,7 @@ static int wl_versions_apply(ldb_versions_t *vset, ldb_edit_t *edit, ldb_mutex_t
   /* the edit line is assembled privately and emitted in one piece after the apply returned (the foreground
      thread may flush the shared event buffer in between) */
   { char *ebuf = NULL; size_t elen = 0; FILE *es = open_memstream(&ebuf, &elen);
+    if (g_csnap_valid) { fprintf(es, "csnap %llu\n", (unsigned long long)g_csnap); g_csnap_valid = 0; }
     fprintf(es, "edit ");
     first = 1;
     rb_set_each(&edit->deleted_files, it) {
